@@ -808,3 +808,51 @@ def oracle_pending_discarded(case, lines, runner=None):
                              f'raised {x!r} at {r.env.now}', 'signature': 'c04-pending-interrupt-error'}]
     return [{'what': f'step() raised {x!r} at {r.env.now}, which is not the exception of any failed event of the program',
              'signature': 'c04-kernel-raised'}]
+
+
+def escaped_user_exceptions(lines):
+    """the X lines of a trace that are not refusals of the kernel (run(until<=now), run(until=event) out of events, step() on an
+    empty schedule) nor a stale stop: exceptions of user code that reached the caller of run()/step()"""
+    out = []
+    for l in lines:
+        if l.startswith('X '):
+            w = l.split(' ')
+            if w[1] in ('EmptySchedule', 'StopSimulation') or (w[1] in ('ValueError', 'RuntimeError') and w[2] in ('s*', '')):
+                continue
+            out.append(l)
+    return out
+
+
+def oracle_driven_run_order(case, lines, runner=None):
+    """restates, for a run driven piecewise (C03: "splitting one run into any sequence of run(until=number), run(until=event) and
+    step() calls ... no process is lost, duplicated or reordered by a stop"), what C01 says of every run: "whatever is scheduled
+    for time t takes effect at exactly t; simulated time never decreases; among occurrences due at the same instant ... urgent
+    first ... in the order in which they were triggered" - judged on the recording environment (public schedule()/step() only)
+    while the plan is executed, in particular on plans that CONTINUE after a piece was cut short by an exception of user code
+    which the caller caught (what an aborted piece leaves behind must not disturb the order of what follows).  Says nothing about
+    WHERE the later pieces stop (DESIGN section 3: outside the split statement after an exception)."""
+    if case.mode != 'plan':
+        return []
+    ri = instrumented(case)
+    if externally_triggered(ri):
+        return []
+    r, env = run_recorded(case)
+    if not env.problems:
+        return []
+    xs = escaped_user_exceptions(r.lines)
+    p = env.problems[0]
+    kind = 'order' if p.startswith('processed') else 'due-time' if 'took effect at' in p else 'time-decreased'
+    if xs:
+        w = xs[0].split(' ')
+        return [{'what': f'plan {case.plan}: a piece of the run was left by {w[1]} (at {kscript_time(w[-1])}), the caller caught it and went on; in the '
+                         f'continued run {p} ({len(env.problems)} such observation(s); {len(env.pending)} occurrences were pending at the end)',
+                 'signature': f'continued-after-exception-{kind}'}]
+    return [{'what': f'plan {case.plan}: in the piecewise run {p}', 'signature': f'split-{kind}'}]
+
+
+def kscript_time(tok):
+    from vlib.util import unbits
+    try:
+        return unbits(int(tok.lstrip('@')))
+    except Exception:
+        return tok
